@@ -1687,6 +1687,12 @@ func vRunControl(c *vCase) {
 	if pendingAtEnd && !k.dead && k.selfEnded && !stopThenStart {
 		k.restartSelfEnded()
 	}
+	// what clients have last been told about the connections of the run that ends here (the set in use; the report monitor
+	// has compared the two after every request)
+	var tableBefore *GroupTriggerState
+	if !k.dead && k.active && !k.selfEnded {
+		tableBefore, _ = k.groupState()
+	}
 	if !k.dead {
 		if k.active {
 			k.reqStop()
@@ -1704,9 +1710,38 @@ func vRunControl(c *vCase) {
 			name := "TRIANGLESOURCE"
 			k.kind = "triangle"
 			k.nchan = 2
+			vClientReset(true)
 			if e, ret := k.do("Start(triangle) after the session", "ok", func() error { return k.sc.Start(&name, &okay) }); ret && e == nil {
 				k.active, k.selfEnded, k.settled = true, false, false
 				k.progress("Start(triangle) after the session")
+				if tableBefore != nil && vGroupKey(tableBefore) != "{}" {
+					// the new run starts without connections; clients that still hold the previous run's table must be told
+					now, ok := k.groupState()
+					var last *GroupTriggerState
+					for i := 0; i < 2000 && last == nil && ok; i++ {
+						for _, m := range vClientSnapshot() {
+							if m.tag == "GROUPTRIGGER" {
+								if st, isp := m.state.(*GroupTriggerState); isp {
+									last = st
+								} else if st, isv := m.state.(GroupTriggerState); isv {
+									st := st
+									last = &st
+								}
+							}
+						}
+						if last == nil {
+							time.Sleep(time.Millisecond)
+						}
+					}
+					if ok && (last == nil || vGroupKey(last) != vGroupKey(now)) {
+						c.Violate("c09:reported-state", "the previous run ended with the connections %s reported to clients; the new run uses %s, but after its Start clients were told %s\nhistory: %v",
+							vGroupKey(tableBefore), vGroupKey(now), vGroupKey(last), k.hist)
+						k.dead = true
+					} else if ok {
+						c.Cov("grouptrigger_reports_checked_after_a_restart", 1)
+					}
+				}
+				vClientReset(false)
 				k.do("Stop()", "ok", func() error { return k.sc.Stop(&str, &okay) })
 				k.active = false
 				c.Cov("restarts_through_the_server", 1)
